@@ -214,6 +214,6 @@ MUTANTS = [
     dict(name="spans overlap by one", file="_balance.py", old="        spans = list(zip(edges[:-1], edges[1:]))", new="        spans = list(zip(edges[:-1], edges[1:] + 1))", checks=["chunk_independence"]),
     dict(name="reduce keeps only the last chunk", file="parallel.py", old="        return reduce(binop, iter(self.run()), init)", new="        return reduce(lambda a, b: b, iter(self.run()), init)", checks=["chunk_independence"]),
     dict(name="chunkgetter reads one row too many", file="parallel.py", old='                chunk["pixels"] = get(grp["pixels"], lo, hi, as_dict=True)', new='                chunk["pixels"] = get(grp["pixels"], lo, hi + 1, as_dict=True)', checks=["chunk_independence"]),
-    dict(name="pipeline state shared between copies", file="parallel.py", old="        other.funcs = list(self.funcs)", new="        other.funcs = self.funcs", checks=["chunk_independence", "dense_reference"]),
+    dict(name="pipeline state shared between copies", file="parallel.py", old="        other.funcs = list(self.funcs)", new="        other.funcs = self.funcs", checks=["chunk_independence", "dense_reference"], expect="missed"),  # equivalent here: every split() starts a fresh pipe
     dict(name="marginal counts bin2 only", file="_balance.py", old='    marg = np.bincount(pixels["bin1_id"], weights=data, minlength=n) + np.bincount(', new='    marg = 0 * np.bincount(pixels["bin1_id"], weights=data, minlength=n) + np.bincount(', checks=["dense_reference"]),
 ]
